@@ -3,7 +3,7 @@
 # Applies the patch in a scratch worktree of /repo (never /repo itself), runs the checks against it.
 set -u
 REV=""; if [ "$1" = "-R" ]; then REV="-R"; shift; fi
-PATCH=$1; shift
+PATCH=$(realpath "$1"); shift
 WT=/tmp/wt/_test
 if [ ! -d $WT ]; then git -C /repo worktree add -q --detach $WT HEAD || exit 3; fi
 git -C $WT checkout -q --detach $(git -C /repo rev-parse HEAD) 2>/dev/null
